@@ -80,7 +80,8 @@ Proof.
     destruct (is_running s).
     + match goal with |- fsext ?s0 (set opq _ ?x) => apply (fsext_set s0 x); [|reflexivity] end.
       match goal with |- fsext ?s0 (set ops _ ?l) => apply (fsext_app s0 l); reflexivity end.
-    + match goal with |- fsext ?s0 (set ops _ ?l) => apply (fsext_app s0 l); reflexivity end.
+    + match goal with |- fsext ?s0 (set inuse _ ?x) => apply (fsext_set s0 x); [|reflexivity] end.
+      match goal with |- fsext ?s0 (set ops _ ?l) => apply (fsext_app s0 l); reflexivity end.
   - (* DrvOp *) destruct (is_running s); cbn [negb]; [|apply fsext_refl].
     destruct (opq s) as [|o q]; [apply fsext_refl|]. destruct (getop s o) as [c|] eqn:Ec; [|repeat fstrip].
     destruct (o_kind c); repeat match goal with |- context [if ?b then _ else _] => destruct b end; repeat fstrip.
